@@ -9,7 +9,15 @@ through library and model.  Whole-reader part (monitoring, not proof): in the bu
 malloc/calloc/realloc/free/edn_arena_alloc wrapped, for each document of a corpus covering every
 reader and growth path, every request index k is failed alone and from k on; the call must
 return normally with the fault-free tree (strings possibly unavailable) or NULL plus an error,
-with no live block left, under ASan with stack-use-after-return detection."""
+with no live block left, under ASan with stack-use-after-return detection.
+Allocation inside the model (correspondence): the allocation-aware reader model Edn.Model.ReaderA (`readA`: one
+`ASt.request` per logical request, a fault oracle, the event trace, the ledger of raw blocks, the life of the two
+arenas) answers `H k mode opt hex` lines like the wrap build of the harness does - outcome, number of logical
+requests, live raw blocks, fate of the parser's arena and the event trace must be identical for every corpus
+document, every failing request index k (alone / from k on, sampled for the big documents) in all four
+configurations, also with the schedule running on through the accessor calls of the dump (modes 3 / 4) and, for the
+order in which qsort first shows the elements to the hashing comparator, in a build without sanitizers
+(vlib/props/alloctrace.py); every trace is replayed against an independent ledger."""
 import itertools
 import json
 import re
@@ -18,6 +26,7 @@ from .. import common as C
 from .. import corr as K
 from .. import gen as G
 from . import util as U
+from . import alloctrace as AT
 
 PID = "C16"
 
@@ -53,6 +62,42 @@ def corpus(rng, cfg, tier):
     return [d for d in docs if d]
 
 
+def hdocs(cfg):
+    """documents added to the corpus for the allocation-trace correspondence (H lines): smaller relatives of the
+    giants the quadratic model driver cannot take, and documents whose duplicate check / metadata merge itself
+    requests memory (equality and hashing decode string literals with escapes lazily)"""
+    clj = cfg in ("clj", "both")
+    exp = cfg in ("exp", "both")
+    esc = lambda i: b"\"s%d\\n\"" % i
+    docs = [b"\n" * 64 + b")", b"\n" * 65 + b")", b"\n" * 129 + b"]", b"\n" * 1100 + b"[1 2", b"[\"" + b"x" * 3000 + b"\\n\" \"" + b"y" * 5000 + b"\\t\"]",
+            b"[0." + b"0" * 600 + b"1]", b"1" + b"0" * 600 + b"e2", b"0." + b"1" * 520 + b"x", b"[" * 101 + b"]" * 101, b"[" * 100 + b"]" * 100]
+    docs += [b"#{" + b" ".join(esc(i) for i in range(n)) + b"}" for n in (2, 3, 17, 18, 19, 25)]
+    docs += [b"#{\"a\\nb\" \"a\nb\"}", b"{\"a\\nb\" 1 \"a\nb\" 2}", b"#{\"a\\n\" \"a\\n\"}", b"#{\"a\\q\" \"b\\q\" \"a\\q\"}", b"#{[\"a\\n\" 1] [\"a\\n\" 2] (\"a\\n\" 2)}",
+             b"#{{\"k\\n\" \"v\\t\"} {\"k\\n\" \"v\\t\"}}", b"#{#{\"k\\n\" 1} #{\"k\\n\" 2}}", b"[#{\"x\\n\" \"y\\n\"} #{\"x\\n\" \"y\\n\"}]",
+             b"#{" + b" ".join([esc(i) for i in range(9)] + [b"%d" % i for i in range(10)] + [b"\"s3\\n\""]) + b"}",
+             b"#{" + b" ".join([b"%d" % i for i in range(20)] + [b"\"a\\nb\"", b"\"a\nb\""]) + b"}",
+             b"#{" + b" ".join([b"\"q\\q%d\"" % (i % 5) for i in range(6)] + [b"%d" % i for i in range(14)]) + b"}",
+             b"#{" + b" ".join([b"[\"e\\n\" %d]" % i for i in range(18)]) + b"}",
+             b"#{" + b" ".join([b"%d" % i for i in range(1001)] + [esc(1), esc(2), b"\"s1\n\""]) + b"}",
+             b"{" + b" ".join(b"\"k%d\\t\" %d" % (i, i) for i in range(20)) + b"}",
+             b"#_ #{\"a\\n\" \"a\\n\"} 1", b"#ext 1", b"[#ext 1 #id [1 2] #inst \"x\" #my/id {:a #ext 2}]", b"#fail 1", b"#{#id \"a\\n\" \"a\\n\"}", b"#foo", b"#foo ]", b"# foo",
+             b"1x", b"1.5x", b"1e", b"01", b"0N", b"0M", b"\\zz", b"a/", b":", b"", b" ", b"{1 2]", b"(1]", b"}"]
+    if clj:
+        docs += [b"^:a ^:b x", b"^{\"k\\n\" 1} ^{\"k\\n\" 2} x", b"^{\"k\\n\" 1} ^{\"k\n\" 2} x", b"^{\"k\\q\" 1} ^{\"k\\q\" 2} ^{\"k\\q\" 3} x", b"^\"s\" ^\"t\" ^[a] ^b ^:c ^{:d 1} [1]",
+                 b"^:a", b"^:a ]", b"^1 x", b"^", b"#:n{:a 1 b 2 :_/c 3 _/d 4 :x/y 5 z/w 6 \"s\" 7 8 9}", b"#:n{a 1 n/a 2}", b"#:n", b"#:n/m{}", b"#:n{:a}",
+                 b"#:n{" + b" ".join(b":k%d %d" % (i, i) for i in range(20)) + b"}", b"4/2", b"0/5", b"1/0", b"0xFFN", b"36rZZ", b"37r1", b"1/123456789012345678901", b"#{\"\\101\" \"A\"}", b"^:a #ext 1"]
+    if exp:
+        tb = lambda n: b"\"\"\"\n" + b"".join(b"  l%d\n" % i for i in range(n)) + b"  \"\"\""
+        docs += [tb(0), tb(15), tb(16), tb(17), tb(33), tb(70), b"\"\"\"\n" + b"x\n" * 20 + b"y", b"#{" + tb(1) + b" \"l0\\n\"}", b"#{" + tb(1) + b" \"l0\n\"}",
+                 b"[1_000 1__0 1_ 1_.0 1._0 1_e3 1e1_0 1_N 1_000N 1_0.0_1M]", b"[1_000N \"a\\n\" \"b\" 1_0.5M \"q\\q\" 9223372036854775_808 1__0 1_0e1_0]", b"#{1_0N 3}", b"{1_0.5M 1 2 3}", b"1_000.5e1_0",
+                 # big numbers whose digits are cleaned of underscores on first comparison / hash
+                 b"#{1_0N 1_0N}", b"#{1_0N 2_0N}", b"#{1_0N 10N}", b"#{1_0.5M 10.5M}", b"#{1_0N 2_0N 3_0N}", b"{1_0N 1 1_0N 2}",
+                 b"#{" + b" ".join(b"%d_0N" % i for i in range(1, 20)) + b"}", b"#{" + b" ".join([b"%d_0N" % i for i in range(1, 20)] + [b"50N"]) + b"}"]
+        if clj:
+            docs += [b"#{0x1_FN 0x1FN}", b"^{1_0N 1} ^{10N 2} x", b"1_0/2_0"]
+    return docs
+
+
 # payloads that are materialised lazily by the accessor (decoded strings, cleaned digit strings)
 STR_RE = re.compile(r"\((str|bigint|bigdec|bigratio) (\d+) (\d+) [^()]*\)")
 
@@ -72,6 +117,11 @@ def same_up_to_unavailable(obs, base):
             return "(%s %s %s *)" % (m.group(1), m.group(2), m.group(3))
         return m.group(0)
 
+    # the accessor audit of the dump calls each big-number getter three times; under a fault the first call may return
+    # NULL (flagged in front of the node) while the one that is printed succeeds: that, too, is an unavailable payload
+    obs = obs.replace("!ACCESSOR:bigint_get(bigint ", "(bigint ").replace("!ACCESSOR:bigdec_get(bigdec ", "(bigdec ")
+    # (the audit now follows the node it audits)
+    obs = re.sub(r"(\((?:bigint|bigdec) [^()]*\))!ACCESSOR:(?:bigint|bigdec)_get", r"\1", obs)
     o = STR_RE.sub(mo, obs)
     return o == STR_RE.sub(mb, base)
 
@@ -220,6 +270,24 @@ def run(tier):
                     found = True
                     rep.finding("reader/partial-or-wrong", "neither the complete fault-free result nor a clean error (fail %s request %d)" % ("only" if mode == 1 else "from", k), rp)
             rep.note_cases(len(lines), set(C.sha(l)[:16] for l in lines), sample={"line": lines[0][:120] if lines else "", "out": (outs[0] or "")[-160:] if outs else ""})
+    # ---- 4. allocation inside the model: the allocation-aware reader model (Edn.Model.ReaderA) against the code on
+    # every (document, failing request, mode): same outcome, same number of logical requests, same event trace,
+    # same ledger.  All four configurations.
+    for cfg in ("core", "clj", "exp", "both"):
+        hr = C.rng(PID + "/H/" + cfg)
+        docs = corpus(hr, cfg, tier) + hdocs(cfg)
+        if AT.run_stream(rep, hr, cfg, docs, "alloc-trace", cap=(28 if tier == "quick" else 100000), max_doc=(10000 if tier == "quick" else AT.MAX_DOC)):
+            found = True
+    # the same in a build without sanitizers, where the C library's own qsort (not ASan's interceptor) decides in
+    # which order the duplicate check first hashes - and thereby decodes - the elements
+    for cfg in (("core",) if tier == "quick" else ("core", "both")):
+        hr = C.rng(PID + "/Hq/" + cfg)
+        esc = lambda i: b"\"s%d\\n\"" % i
+        qdocs = [b"#{" + b" ".join(esc(i) for i in range(n)) + b"}" for n in (17, 20, 23)] + \
+                [b"#{" + b" ".join([esc(i) for i in range(9)] + [b"%d" % i for i in range(10)] + [b"\"s3\\n\""]) + b"}",
+                 b"#{" + b" ".join([b"%d" % i for i in range(20)] + [b"\"a\\nb\"", b"\"a\nb\""]) + b"}"]
+        if AT.run_stream(rep, hr, cfg, qdocs, "alloc-trace-libc-qsort", cap=100000, mode="o2", opt_extra=32, opts_fn=lambda d, b: [0]):
+            found = True
     rep.count("faults-fired", fired_total)
     if fired_total == 0:
         rep.broken_obligation("fault-injection", "no allocation failure fired: the wrap build does not intercept the library's allocations", False)
@@ -229,6 +297,8 @@ def run(tier):
 def replay(path):
     r = json.load(open(path))
     print(json.dumps(r, indent=1)[:3000])
+    if r.get("stream") == "alloc-trace":
+        return AT.replay(r)
     if r.get("kind") == "line":
         exe = C.harness(r.get("style", "wrap"), r["config"], "san")
         out = C.run_lines(exe, [r["line"]])
